@@ -48,4 +48,31 @@ theorem inc_calls_src : inc_calls = "Lock,Unlock,Wait" := by decide
 theorem listen_return_src :
     listen_return = "c.limiter.Limit(l, dnsserver.MustServerInfoFromContext(ctx)), nil" := by decide
 
+/-! ### Round 4: production wiring in `internal/cmd` (what `Model/ConnLimit.lean`'s `ConnLimitYaml` / `TcpYaml` / `Proto.wireTcp` transcribe) -/
+
+/-- The builder keeps the limiter that `connLimitConfig.toInternal` makes … -/
+theorem wire_builder_limiter_src : wire_builder_limiter = "c.ConnectionLimit.toInternal(b.baseLogger)" := by decide
+/-- … and hands exactly that limiter to `dnssvc.New` (field `ConnLimiter` of the one `dnssvc.Config` literal). -/
+def expDNSConf : String :=
+  "&dnssvc.Config{ Handlers: dnsHdlrs, Cloner: b.cloner, ControlConf: b.controlConf, ConnLimiter: b.connLimit, NonDNS: b.webSvc, ErrColl: b.errColl, MetricsNamespace: b.mtrcNamespace, ServerGroups: b.serverGroups, HandleTimeout: b.conf.DNS.HandleTimeout.Duration, }"
+theorem wire_builder_dnsconf_src : wire_builder_dnsconf = expDNSConf := by decide +kernel
+/-- `toInternal`: nil when disabled; `Stop: c.Stop, Resume: c.Resume` otherwise. -/
+theorem wire_tointernal_guard_src : wire_tointernal_guard = "!c.Enabled | err != nil" := by decide
+def expNewArgs : String :=
+  "&connlimiter.Config{ Logger: logger.With(slogutil.KeyPrefix, \"connlimiter\"), Stop: c.Stop, Resume: c.Resume, }"
+theorem wire_tointernal_new_src : wire_tointernal_new = expNewArgs := by decide +kernel
+/-- `connLimitConfig.validate` and `validateConnLimit` are the case lists `ConnLimitYaml.validate` follows. -/
+theorem wire_validate_conn_src :
+    wire_validate_conn = "c == nil | !c.Enabled | c.Stop == 0 | c.Resume == 0 | c.Resume > c.Stop | default" := by decide
+theorem wire_validate_addrs_src : wire_validate_addrs = "!connLim.Enabled | connLim.Resume < n" := by decide
+/-- `ratelimitTCPConfig.validate` checks the count whether or not the section is enabled. -/
+theorem wire_validate_tcp_src :
+    wire_validate_tcp = "errors.ErrNoValue | validatePositive(\"max_pipeline_count\", c.MaxPipelineCount)" := by decide
+/-- `servers.toInternal`: one `agd.TCPConfig` from `ratelimit.tcp`, given to every protocol but DNSCrypt. -/
+def expTCPConf : String :=
+  "&agd.TCPConfig{ IdleTimeout: dnsConf.TCPIdleTimeout.Duration, MaxPipelineCount: ratelimitConf.TCP.MaxPipelineCount, MaxPipelineEnabled: ratelimitConf.TCP.Enabled, }"
+theorem wire_tcpconf_src : wire_tcpconf = expTCPConf := by decide +kernel
+theorem wire_tcpconf_cases_src : wire_tcpconf_cases = "agd.ProtoDNS | agd.ProtoDNSCrypt | default" := by decide
+theorem wire_tcpconf_uses_src : wire_tcpconf_uses = "tcpConf" := by decide
+
 end Agd.Tie.C18
